@@ -59,6 +59,7 @@ pub fn gen_explorer(seed: u64) -> ExplorerScenario {
         ignored: true,
     };
     let mut graph = gen_graph(&mut rng, &o);
+    graph.mute_steps = rng.chance(1, 3);
     // a reference walk inside the boundary
     if !graph.inits.iter().any(|i| graph.in_boundary(*i)) {
         let f = graph.inits[0];
@@ -286,7 +287,17 @@ pub fn run_explorer(sc: &ExplorerScenario) -> ExOutcome {
                                         Some(t) => view["state"].as_str() == Some(&format!("{:#?}", t)) && view["fingerprint"].as_str() == Some(&format!("{}", fp(*t))),
                                         None => view.get("state").is_none() && view.get("fingerprint").is_none(),
                                     };
-                                    if !(action_ok && state_ok) {
+                                    let outcome_ok = if *a == u16::MAX {
+                                        true
+                                    } else {
+                                        let last = denotes(g, &fps).unwrap_or(0);
+                                        let muted = g.mute_steps && (last + *a) % 2 == 0;
+                                        match t {
+                                            Some(t) if !muted => view["outcome"].as_str() == Some(&format!("{:#?}", t)),
+                                            _ => view.get("outcome").is_none(),
+                                        }
+                                    };
+                                    if !(action_ok && state_ok && outcome_ok) {
                                         ok = false;
                                     }
                                     if let Some(t) = t {
